@@ -4,7 +4,7 @@
    propagate the failure.  Tied to /repo by the correspondence run of ./check C04 over the
    (error class x syntactic context) product. *)
 From Coq Require Import ZArith List Bool String.
-From Verif Require Import BGate PyVal Ast State Unroll ResolveProofs ErrorProofs.
+From Verif Require Import BGate PyVal Ast State Unroll ResolveProofs ErrorProofs CastGen CastProofs.
 Import ListNotations.
 Open Scope Z_scope.
 
@@ -67,6 +67,29 @@ Theorem C04_value_outside_declared_range n z :
   1 <= n -> (z < - 2 ^ (n - 1) \/ 2 ^ (n - 1) - 1 < z) -> cast_value KInt (Some n) (VInt z) = Err EValidation.
 Proof. exact (int_out_of_range_rejected n z). Qed.
 Print Assumptions C04_value_outside_declared_range.
+
+(* the same for the range check as the source has it now (CastGen.v, regenerated from validator.py / maps.py) *)
+Theorem C04_value_outside_declared_range_in_the_source n z :
+  1 <= n -> (z < - 2 ^ (n - 1) \/ 2 ^ (n - 1) - 1 < z) -> cast_value_gen KInt (Some n) (VInt z) = Err EValidation.
+Proof.
+  intros Hn Hr. rewrite cast_value_gen_eq by (intros m Hm; inversion Hm; subst; exact Hn). exact (int_out_of_range_rejected n z Hn Hr).
+Qed.
+Print Assumptions C04_value_outside_declared_range_in_the_source.
+
+(* wrong counts and out-of-range indices for arrays *)
+Theorem C04_array_index_out_of_range i d s :
+  (i < 0 \/ d <= i) -> analyze_indices [IExpr (ELit (VInt i))] (Some [d]) s = Err EValidation.
+Proof.
+  intros H. rewrite analyze_index_literal.
+  destruct ((0 <=? i) && (i <? d)) eqn:E; [|reflexivity].
+  apply andb_true_iff in E as [E1 E2]. apply Z.leb_le in E1. apply Z.ltb_lt in E2. exfalso. destruct H; auto with zarith.
+Qed.
+Print Assumptions C04_array_index_out_of_range.
+
+Theorem C04_array_index_count items ds s :
+  ds <> [] -> List.length items <> List.length ds -> analyze_indices items (Some ds) s = Err EValidation.
+Proof. exact (analyze_index_count items ds s). Qed.
+Print Assumptions C04_array_index_count.
 
 Theorem C04_duplicate_gate_definition co ext vr cr name ps qs body s :
   smemk name (gates s) = true -> visit_stmt_body co ext vr cr (SGateDef name ps qs body) s = Err EValidation.
